@@ -94,11 +94,14 @@ class ThreadBuilder:
         self.interp = A.Interp(cfg)
         self.nodes = {}
         self.next_id = 0
+        self.cur_op = 0
+        self.op_of = {}          # node id -> index of the endpoint operation it belongs to
 
     def new_node(self, op, succ=None):
         nid = self.next_id
         self.next_id += 1
         self.nodes[nid] = dict(op=op, succ=succ or {})
+        self.op_of[nid] = self.cur_op
         return nid
 
     def func_automaton(self, fname, args, on_return):
@@ -145,6 +148,14 @@ class ThreadBuilder:
     def recv_from(self, ops, i):
         if i >= len(ops):
             return "END"
+        saved = self.cur_op
+        self.cur_op = i
+        try:
+            return self._recv_from(ops, i)
+        finally:
+            self.cur_op = saved
+
+    def _recv_from(self, ops, i):
         op = ops[i]
         nxt_cache = {}
 
@@ -253,7 +264,7 @@ def build_scenario(cfg, find, sender_op, recv_ops):
     e0 = tb0.sender(sender_op)
     tb1 = ThreadBuilder(cfg, find)
     e1 = tb1.receiver(recv_ops)
-    threads = [dict(nodes=tb0.nodes, entry=e0), dict(nodes=tb1.nodes, entry=e1)]
+    threads = [dict(nodes=tb0.nodes, entry=e0, op_of=tb0.op_of), dict(nodes=tb1.nodes, entry=e1, op_of=tb1.op_of)]
     k = 0
     for th in threads:
         lp, loops = longest_path(th["nodes"], th["entry"])
